@@ -165,6 +165,25 @@ class World:
             with cm:
                 self.call(list(first))
                 return self.call(list(second))
+        if name == "bad":
+            # a call with an argument the library refuses: whatever it answers (normally an
+            # exception, which the caller handles), the inputs are as before and later calls
+            # are not affected
+            _, which = op
+            if which == "tensor_cutoff":
+                self.agg.get_RelaxationTensor(self.ta, relaxation_theory="combined_RedfieldFoerster",
+                                              coupling_cutoff=-1.0)
+            elif which == "tensor_theory":
+                self.agg.get_RelaxationTensor(self.ta, relaxation_theory="no_such_theory")
+            elif which == "dm_condition":
+                self.agg.get_DensityMatrix(condition_type="no_such_condition", temperature=300.0)
+            elif which == "propagate_dim":
+                self.ensure(["propagate", "standard_Redfield", False, "rho0", 1])
+                p, settings = self.props["standard_Redfield/False"]
+                p.propagate(qr.ReducedDensityMatrix(data=numpy.eye(2, dtype=complex) / 2.0))
+            else:
+                raise isolation.HarnessError(which)
+            return {"returned": numpy.zeros(1)}
         if name == "read":
             # a pure READ of the input objects a propagator works on (tensor and Hamiltonian in
             # the representation of the current context); reading is not an input
@@ -321,6 +340,8 @@ def menu(tier):
            ["rates", "redfield"], ["rates", "foerster"],
            ["abs"], ["dm", "thermal"], ["dm", "impulsive_excitation"]]
     ops = [o for o in ops if o is not None]
+    ops += [["bad", "tensor_cutoff"], ["bad", "tensor_theory"], ["bad", "dm_condition"],
+            ["bad", "propagate_dim"], ["propagate", "standard_Redfield", False, "rho0", 2]]
     ops += [["propagate", "noneq_Foerster", True, "rho0", 1],
             ["propagate", "noneq_Foerster", True, "rho1", 1],
             ["refill", "rho0", 1], ["refill", "rho0", 2]]
@@ -349,8 +370,7 @@ def menu(tier):
             ops.append(["in2", c, ["propagate", theory, td, "rho0", 1],
                         ["propagate", theory, td, "rho0", 1]])
     if tier == "thorough":
-        ops += [["propagate", "standard_Redfield", False, "rho0", 2],
-                ["tensor", "standard_Foerster", True, False],
+        ops += [["tensor", "standard_Foerster", True, False],
                 ["tensor", "combined_RedfieldFoerster", False, True],
                 ["dm", "thermal_excited_state"]]
     return ops
@@ -516,6 +536,18 @@ def run(run):
                     ["pop"], ["pop_matrix", 2]]
     run_bfs(run, execute, depth + 1, cap_s=25 if run.tier == "quick" else 240,
             section="refill-focus")
+    # refused calls and propagator settings followed by every kind of use of the same objects
+    execute.menu = [["bad", "tensor_cutoff"], ["bad", "tensor_theory"], ["bad", "dm_condition"],
+                    ["bad", "propagate_dim"],
+                    ["propagate", "standard_Redfield", False, "rho0", 2],
+                    ["propagate", "standard_Redfield", False, "rho0", 1],
+                    ["propagate", "combined_RedfieldFoerster", False, "rho0", 1],
+                    ["in", "basis", ["propagate", "standard_Redfield", False, "rho0", 1]],
+                    ["in", "basis", ["propagate_free", "rho0"]],
+                    ["tensor", "combined_RedfieldFoerster", False, False], ["sv"],
+                    ["dm", "thermal"]]
+    run_bfs(run, execute, depth, cap_s=25 if run.tier == "quick" else 240,
+            section="refusals-and-settings")
     execute.menu = full
     for j in range(n0, len(run.viol)):
         k, what, case, det = run.viol[j]
